@@ -146,10 +146,21 @@ def run_traced(workload, admit, tbl, k, rate=None, rng_seed=0, logger=None):
     return logger, er, tracer, draws, result
 
 
+def resolved(tracer, code):
+    """the function the real tracer resolved this code object to (None: unresolvable or never seen); reads the tracer's
+    function cache whether it is keyed by the code object or by its identity"""
+    c = tracer.cache
+    for key in (id(code), code):
+        v = c.get(key)
+        if v is not None:
+            return v[1] if isinstance(v, tuple) else v
+    return None
+
+
 def model_request(er, tracer, ft, rate, draws):
     resolve = []
     for code, cid in er.codes.items():
-        f = tracer.cache.get(code)
+        f = resolved(tracer, code)
         if f is not None:
             resolve.append((str(cid), str(ft.of(f))))
     return ("tracer", tuple(str(c) for c in er.codes.values()), tuple(resolve), "none" if rate is None else str(rate),
